@@ -328,16 +328,25 @@ class Program:
         self.helpers = {}
         from .mirinline import is_private_helper
 
-        called = set()
-        for j in fns_json:
-            for b in j["blocks"]:
-                t = b["term"]
-                if t["k"] in ("call", "tailcall") and (t.get("callee") or {}).get("key"):
-                    called.add(t["callee"]["key"])
+        def _called(js):
+            out = set()
+            for j in js:
+                for b in j["blocks"]:
+                    t = b["term"]
+                    if t["k"] in ("call", "tailcall"):
+                        c = t.get("callee") or {}
+                        if c.get("key"):
+                            out.add(c["key"])
+                        if (c.get("resolved") or {}).get("key"):
+                            out.add(c["resolved"]["key"])
+            return out
+
+        before, after = _called(facts["fns"]), _called(fns_json)
         for j in fns_json:
             f = Fn(self, j)
-            if is_private_helper(j) and self.inlined_helpers and f.key not in called:
-                # every call of this private helper was spliced into its callers: it is analysed there, in context
+            if is_private_helper(j) and f.key in before and f.key not in after:
+                # every call of this helper was spliced into its callers: it is analysed there, in context.
+                # (A new function nobody calls - new public API - stays in the table and is analysed on its own.)
                 self.helpers[f.key] = f
                 continue
             self.fns[f.key] = f
